@@ -472,7 +472,7 @@ pub fn prop_c08() -> Prop {
         id: "C08",
         scenarios: vec![
             Scenario { name: "roundtrip", f: c08_roundtrip, thorough_only: false,
-                bounds: "every shape of <=7 (quick) / <=9 (thorough) elements with known values + 21 larger shapes (all subject cases, with and without assertions, incl. obscured subjects) x {encrypt_subject/decrypt_subject (+wrong key, second encryption bare / with another key / after adding an assertion, decrypt after add, decrypt after decode), encrypt/decrypt, Encrypt action on every single position + element decryption, decrypt of a non-encrypted subject} x every digest order. One concrete key pair per run (VERIF_SEED)",
+                bounds: "every shape of <=7 (quick) / <=9 (thorough) elements with known values + 30 hand-written shapes (all subject cases, with and without assertions, incl. obscured subjects) x {encrypt_subject/decrypt_subject (+wrong key, second encryption bare / with another key / after adding an assertion, decrypt after add, decrypt after decode), encrypt/decrypt, Encrypt action on every single position + element decryption, decrypt of a non-encrypted subject} x every digest order. One concrete key pair per run (VERIF_SEED)",
                 api: &["encrypt_subject", "decrypt_subject", "encrypt", "decrypt", "elide_removing_target_with_action(Encrypt)", "add_assertion_envelope", "try_from_cbor_data"] },
             Scenario { name: "misdeclared", f: c08_misdeclared, thorough_only: false,
                 bounds: "content A x declared digest of B, A and B every non-node shape of <=5 elements + 2 larger (wrapped node) x 0..2 assertions added to the encrypted element x direct / decoded x every digest order: decryption must fail whenever digest(A) != digest(B)",
@@ -493,7 +493,7 @@ pub fn prop_c13() -> Prop {
         id: "C13",
         scenarios: vec![
             Scenario { name: "roundtrip", f: c13_roundtrip, thorough_only: false,
-                bounds: "every shape of <=7 (quick) / <=9 (thorough) elements + 21 larger shapes + 4 payload kinds (compressible, incompressible, empty, tiny) bare and in nodes, as built or after each of its assertions was offered to it once more x {the Compress action of the elision calls on an already compressed envelope / subject, compress/uncompress (+idempotence, +decode), compress_subject/uncompress_subject, compressed element as subject of 2 further assertions then uncompress_subject / compress_subject, every chain of 3 operations out of the 4} x every digest order; digest equal at every step",
+                bounds: "every shape of <=7 (quick) / <=9 (thorough) elements + 30 hand-written shapes + 4 payload kinds (compressible, incompressible, empty, tiny) bare and in nodes, as built or after each of its assertions was offered to it once more x {the Compress action of the elision calls on an already compressed envelope / subject, compress/uncompress (+idempotence, +decode), compress_subject/uncompress_subject, compressed element as subject of 2 further assertions then uncompress_subject / compress_subject, every chain of 3 operations out of the 4} x every digest order; digest equal at every step",
                 api: &["compress", "uncompress", "compress_subject", "uncompress_subject", "add_assertion_envelope", "replace_subject"] },
             Scenario { name: "misdeclared", f: c13_misdeclared, thorough_only: false,
                 bounds: "content A x declared digest of B over every shape of <=5 elements, bare / decoded / with an assertion; compressed element without digest",
